@@ -18,6 +18,7 @@ from the RFCs), DnsWireName.tla (names, presentation escapes), DnsWireGen.tla
     labels back; names WRITTEN from presentation strings are decoded by the
     reference (DnsWireTrace.tla).
 """
+import json
 import os
 import sys
 
@@ -131,6 +132,7 @@ def run(ctx):
     nontrivial = set()
     pres_events = []
     reported = {}
+    reported_names = {}      # presentation string (hex) the parser reported -> first vector that showed it
     for v in vecs:
         r = res.get(v["id"])
         if r is None or r.get("crash") or r.get("leak") or "p" not in r:
@@ -168,6 +170,9 @@ def run(ctx):
                     _report(ctx, reported, sig, v, d, p, "fields differ: %s" % (diffs[:4],))
             else:
                 stats["wf_accepted_equal" if d["k"] == "WF" else "lenient_accepted_equal"] += 1
+                if d["fl"] == 0:
+                    for nm in _reported_names(p["rec"]):
+                        reported_names.setdefault(nm, v["id"])
                 rec = d["rec"]
                 if rec["an"] or rec["ns"] or rec["ar"]:
                     nontrivial.add(cl.hx(v["nb"]) + str(d["fl"]))
@@ -208,6 +213,59 @@ def run(ctx):
             continue
         events.append({"id": "b|" + v["id"], "e": "wire", "nb": cl.unhx(r["w"]["hex"]), "fl": 0,
                        "rec": cl.canon_to_ref(r["w"]["orig"]), "names": "pres"})
+    # every name the parser reported (for a message the reference can read) goes back through the public setters
+    # and ares_dns_write: the write must succeed and the reference must decode the same labels
+    # (Unescape(reported string)).  Two RDATA positions without hostname validation: SRV target (written outside
+    # the offset list) and NS name (written through the offset list; that path refuses presentation strings
+    # longer than 255 characters, which is recorded but not demanded).
+    rt = []
+    names = sorted(reported_names)
+    for i, nm in enumerate(names):
+        base = {"id": 1, "qr": 0, "opcode": 0, "aa": 0, "tc": 0, "rd": 0, "ra": 0, "ad": 0, "cd": 0, "rcode": 0,
+                "ns": [], "ar": []}
+        rt.append({"id": "n|%d|srv" % i, "op": "build", "prefixes": [],
+                   "rec": dict(base, qd=[{"name": "", "qtype": 33, "qclass": 1}],
+                               an=[{"name": "", "type": 33, "class": 1, "ttl": 0,
+                                    "keys": [[3302, 4, 1], [3303, 4, 2], [3304, 4, 3], [3305, 6, nm]]}])})
+        rt.append({"id": "n|%d|ns" % i, "op": "build", "prefixes": [],
+                   "rec": dict(base, qd=[{"name": "", "qtype": 2, "qclass": 1}],
+                               an=[{"name": "", "type": 2, "class": 1, "ttl": 0, "keys": [[201, 6, nm]]}])})
+    rres, _ = cl.run_harness(ctx, exe, "c04_name_roundtrip", rt, timeout=900)
+    for vid, sig, text in cl.confirmed_safety(ctx, exe, rt, rres):
+        ctx.violation("c04." + sig, text)
+    rts = {"names": len(names), "written": 0, "listed_position_gt255_chars_refused": 0, "not_writable": 0}
+    for b in rt:
+        r = rres.get(b["id"])
+        if not r or r.get("crash") or r.get("leak"):
+            continue
+        i, pos = int(b["id"].split("|")[1]), b["id"].split("|")[2]
+        nm = names[i]
+        st = r.get("st") if not r.get("built") else r["w"]["st"]
+        if not r.get("built") or st != cl.ARES_SUCCESS:
+            if pos == "ns" and len(nm) // 2 > 255:
+                rts["listed_position_gt255_chars_refused"] += 1
+                continue
+            rts["not_writable"] += 1
+            lab = _longest_label_hint(nm)
+            _report_once(ctx, reported, "name.roundtrip.reported_name_not_writable.%s.st%s" % (pos, st),
+                         "the parser reported the name %r (vector %s, %d characters%s) but writing it back through the "
+                         "setters + ares_dns_write fails with status %s at %s" %
+                         (bytes.fromhex(nm)[:120], reported_names[nm], len(nm) // 2, lab, st,
+                          r.get("where") or "ares_dns_write"),
+                         json.dumps({"signature": "name.roundtrip", "op": "build", "rec": b["rec"],
+                                     "from_vector": reported_names[nm]}))
+            continue
+        rts["written"] += 1
+        events.append({"id": b["id"], "e": "wire", "nb": cl.unhx(r["w"]["hex"]), "fl": 0,
+                       "rec": cl.canon_to_ref(r["w"]["orig"]), "names": "pres"})
+        if not r["w"].get("rp_eq"):
+            _report_once(ctx, reported, "name.roundtrip.reparsed_name_differs.%s" % pos,
+                         "name %r written and parsed back differs: %s" %
+                         (bytes.fromhex(nm)[:120], cl.diff_canon(r["w"]["orig"], r["w"]["rp"])[:2] if "rp" in r["w"] else
+                          r["w"].get("rp_st")),
+                         json.dumps({"signature": "name.roundtrip", "op": "build", "rec": b["rec"]}))
+    ctx.notes["name_roundtrip"] = rts
+    ctx.log("name round trip: %s" % rts)
     clean = [{k: x for k, x in e.items() if not k.startswith("_")} for e in events + pres_events]
     bad = cl.validate_trace(ctx, "c04_names", clean, timeout=900)
     pe = {e["id"]: e for e in pres_events}
@@ -217,6 +275,12 @@ def run(ctx):
             ctx.violation("parse.name.presentation_differs.%s" % e["_path"],
                           "vector %s: reported name string does not un-escape to the reference labels: %s" %
                           (e["_v"], e["_d"]), replay_content=_replay(vecs, e["_v"]))
+        elif eid.startswith("n|"):
+            ctx.violation("name.roundtrip.written_labels_differ.%s" % eid.split("|")[2],
+                          "name %r: the bytes written from the reported presentation string do not decode to "
+                          "Unescape(string) (%s)" % (bytes.fromhex(names[int(eid.split("|")[1])])[:120], verdict),
+                          replay_content=json.dumps({"signature": "name.roundtrip", "op": "build",
+                                                     "rec": [b for b in rt if b["id"] == eid][0]["rec"]}))
         elif eid.startswith("b|"):
             w = bres[eid]["w"]
             sig = "write.name.presentation_to_wire.%s" % verdict.split(":")[0]
@@ -244,6 +308,32 @@ def run(ctx):
         "parse flags compared: %s (RAW = RDATA uninterpreted); other flag combinations are only run for safety in C02" % flags,
         "the mapping reference field <-> c-ares key id (codeclib.BIND) is trusted plumbing",
     ]
+
+
+NAME_KEYS = {k for tag, (_, fields) in cl.BIND.items() for (f, k, dt, kind) in fields if kind == "name"}
+
+
+def _reported_names(rec):
+    out = [q["name"] for q in rec["qd"]]
+    for sect in ("an", "ns", "ar"):
+        for rr in rec[sect]:
+            out.append(rr["name"])
+            out += [k[2] for k in rr["keys"] if k[0] in NAME_KEYS]
+    return [n for n in out if n]
+
+
+def _longest_label_hint(nm):
+    """plumbing for the message text only: longest run between unescaped dots, in characters"""
+    s = bytes.fromhex(nm)
+    return ", longest dot-separated part %d characters" % max(len(x) for x in s.split(b".")) if s else ""
+
+
+def _report_once(ctx, reported, sig, text, replay):
+    n = reported.get(sig, 0)
+    reported[sig] = n + 1
+    ctx.notes.setdefault("mismatch_counts", {})[sig] = n + 1
+    if n == 0:
+        ctx.violation(sig, text, replay_content=replay)
 
 
 def _is_name_key(path):
